@@ -226,6 +226,20 @@ func (p *Program) TryFunc(rel, name string) *ssa.Function {
 	o := p.TryObj(rel, name)
 	fo, ok := o.(*types.Func)
 	if !ok {
+		// a method that became a function (or the reverse) is found under its old name
+		var want []string
+		if parts := strings.SplitN(name, ".", 2); len(parts) == 2 {
+			want = []string{fmt.Sprintf("%s.(*%s).%s", rel, parts[0], parts[1]), fmt.Sprintf("%s.(%s).%s", rel, parts[0], parts[1])}
+		} else {
+			want = []string{rel + "." + name}
+		}
+		for f, a := range formAliases {
+			for _, w := range want {
+				if a.full == w && f.Blocks != nil {
+					return f
+				}
+			}
+		}
 		return nil
 	}
 	f := p.SSA.FuncValue(fo)
@@ -336,6 +350,14 @@ func FuncName(f *ssa.Function) string {
 	if f.Parent() != nil {
 		return FuncName(f.Parent()) + "$" + strings.TrimPrefix(f.Name(), f.Parent().Name()+"$")
 	}
+	if a, ok := formAliases[f]; ok {
+		return a.full
+	}
+	return plainFuncName(f)
+}
+
+// plainFuncName is FuncName without the method<->function aliases (see names.go).
+func plainFuncName(f *ssa.Function) string {
 	pk := ""
 	if f.Pkg != nil {
 		pk = RelPkg(f.Pkg.Pkg)
